@@ -25,6 +25,7 @@ def pick_scheme(rng):
 
 
 class Pick(Suite):
+    scribbled_rate, bench_rate = 0.1, 0.1
     seasoned_rate = 0.2      # share of the cases run on a PickAPerm object that has served before (algos.seasoned)
     name = "pickaperm"
     imports = ["Scheme", "Rank", "Borda", "PickAPerm", "Judge.JC10"]
@@ -134,7 +135,10 @@ class Pick(Suite):
             alg = PickAPerm()
             if case.get("seasoned"):
                 seasoned(alg, case["D"], case["s"], lambda raw: Dataset.from_raw_list([[{fwd(e) for e in b} for b in r] for r in raw]))
-            cons = alg.compute_consensus_rankings(ds, sc, case["one"])
+            if case.get("scribbled"):
+                from algos import scribble
+                scribble(ds)
+            cons = alg.compute_consensus_rankings(ds, sc, case["one"], True) if case.get("bench") else alg.compute_consensus_rankings(ds, sc, case["one"])
             out["cons"] = [[[back(e.value) for e in b] for b in r.buckets] for r in cons.consensus_rankings]
             out["score"] = to_units(cons.kemeny_score)
         except Exception as e:
